@@ -487,26 +487,30 @@ def _trid_with_junk(rtype, info):
 
 
 def replay(case):
-    res = new_result()
+    """Re-run the (small) shard the case came from; the runner keeps the violation with the same key."""
     d, what = case["driver"], case["what"]
     if what == "decode":
+        res = new_result()
         _decode(res)
         return [v for v in res["violations"] if v["case"]["driver"] == d]
-    if what.startswith("seq"):
-        if d == "tridonic":
-            return run_shard(("seq", [case["start_seq"]]))["violations"]
+    if what == "seq":
         return run_shard(("seq-legacy",))["violations"]
-    if case.get("cls"):
-        cmd = None
-        for desc, c in class_commands():
-            if type(c).__module__ + "." + type(c).__name__ == case["cls"]:
-                cmd = c
-        if cmd is None:
-            cmd = raw_cmd(case["bits"], case["value"])
-    else:
-        cmd = raw_cmd(case["bits"], case["value"])
+    if what.startswith("seq-from-"):
+        return run_shard(("seq", [int(what.split("-")[-1])]))["violations"]
     if d in ASYNC:
-        check_async_batch(res, d, [cmd], case.get("start_seq", 1), what)
-    else:
-        check_sync(res, d, cmd, what)
+        if what == "classes":
+            return run_shard(("classes", d))["violations"]
+        if what == "lengths":
+            return run_shard(("lengths", d))["violations"]
+        lo = (case["value"] // 8192) * 8192
+        vs = run_shard(("raw16", d, lo, lo + 8192, 1 if case["value"] % 16 else 16))["violations"]
+        return vs
+    res = new_result()
+    cmd = None
+    for desc, c in class_commands():
+        if type(c).__module__ + "." + type(c).__name__ == case.get("cls") and len(c.frame) == case["bits"] and c.frame.as_integer == case["value"]:
+            cmd = c
+    if cmd is None:
+        cmd = raw_cmd(case["bits"], case["value"])
+    check_sync(res, d, cmd, what)
     return res["violations"]
